@@ -47,7 +47,7 @@ impl Check for C07 {
         v
     }
     fn required_classes(&self, _t: Tier) -> Vec<&'static str> {
-        vec!["T:f64", "T:f32", "n:3", "n:4", "k:+-1..3", "k:>=1000", "k:negative", "k:positive", "base:seam", "base:interior", "axis:non-uniform"]
+        vec!["T:f64", "T:f32", "n:3", "n:4", "k:+-1..3", "k:1000..1e6", "k:>1e6", "k:negative", "k:positive", "base:seam", "base:interior", "axis:non-uniform"]
     }
     fn extra_coverage(&self) -> serde_json::Value {
         json!({"K_f64": k_const::<f64>(), "K_f32": k_const::<f32>()})
@@ -82,12 +82,14 @@ fn run<T: Flt>(src: &mut Src, obs: &mut Obs) -> Result<(), Fail> {
             _ => (query_in_range::<T>(src, &c.x).0, "base:interior"),
         };
         let kmax: i64 = if T::MANT == 53 { 1_000_000 } else { 1_000 };
-        let k = match src.weighted(&[1, 4, 2, 2, 2]) {
+        let k = match src.weighted(&[1, 4, 2, 2, 2, 2]) {
             0 => 0,
             1 => src.int_in(1, 3),
             2 => 1000,
             3 => kmax,
-            _ => src.int_in(1, kmax),
+            4 => src.int_in(1, kmax),
+            // very far: any power-of-two magnitude up to where the phase still has ~10 significant bits
+            _ => (1i64 << src.int_in(if T::MANT == 53 { 20 } else { 10 }, if T::MANT == 53 { 42 } else { 13 })) + src.int_in(0, 1000),
         } * if src.bool() { 1 } else { -1 };
         let mut q = T::of(xb + k as f64 * pf);
         // a few ulps around an image of the seam
@@ -107,7 +109,8 @@ fn run<T: Flt>(src: &mut Src, obs: &mut Obs) -> Result<(), Fail> {
                 0 => "k:0",
                 1..=3 => "k:+-1..3",
                 4..=999 => "k:4..999",
-                _ => "k:>=1000",
+                1000..=1_000_000 => "k:1000..1e6",
+                _ => "k:>1e6",
             });
             if k != 0 {
                 obs.class(if k < 0 { "k:negative" } else { "k:positive" });
